@@ -17,9 +17,15 @@ def ulp(x):
     return float(np.spacing(x)) if np.isfinite(x) else float("inf")
 
 
+TINY = float(np.finfo(float).tiny)      # smallest normal number
+
+
 def nudge(x, k):
-    """x moved by k floating-point neighbours (k may be negative)"""
+    """x moved by k floating-point neighbours (k may be negative).  Denormal numbers are not part of the
+    alphabet (compiled XLA code flushes them to zero): the neighbours of 0 are taken to be +-k*TINY."""
     x = float(x)
+    if x == 0.0:
+        return float(k) * TINY
     for _ in range(abs(int(k))):
         x = float(np.nextafter(x, math.inf if k > 0 else -math.inf))
     return x
@@ -34,9 +40,13 @@ def in_band_exact(x, y, eps):
     return abs(Fr(x) - Fr(y)) < Fr(eps)
 
 
+SHARP_ULPS = 128.0     # a-priori bound of a backward-stable evaluation is ~8 ulp; worst observed 1 ulp; 100x margin
+CANCEL_ULPS = 256.0    # worst observed 2.6 ulp((x+y)^2/4)/eps
+
+
 def sharp_tol(x, y, eps):
-    """rounding allowance of a backward-stable evaluation: a few ulp of the largest quantity involved"""
-    return 8.0 * ulp(max(abs(x), abs(y), abs(eps), 5e-324))
+    """rounding allowance of a backward-stable evaluation: ulps of the largest quantity involved"""
+    return SHARP_ULPS * ulp(max(abs(x), abs(y), abs(eps), TINY))
 
 
 def cancel_bound(x, y, eps):
@@ -44,7 +54,7 @@ def cancel_bound(x, y, eps):
     (-(x+y-eps)^2/4 + x y)/eps : two O((x+y)^2/4) terms are subtracted and the difference is divided by eps."""
     e = max(eff_width(eps), 5e-324)
     a = 0.25 * (abs(x) + abs(y) + e) ** 2
-    return 8.0 * ulp(max(a, abs(x * y))) / e + sharp_tol(x, y, eps)
+    return CANCEL_ULPS * ulp(max(a, abs(x * y))) / e + sharp_tol(x, y, eps)
 
 
 def min_excess(x, y, eps, v):
